@@ -19,6 +19,8 @@ ELEMENT_NAMES = ["a", "b", "c", "d", "e", "f", "g", "h", "item", "Title", "sub-i
 ATTR_NAMES = ["id", "ref", "refs", "kind", "status", "created_at", "data-x", "x.y", "v1", "class", "name", "n",
               "author", "mode", "Level", "tok", "toks", "value"]
 ENUM_TOKENS = ["draft", "published", "a-b", "c.d", "1", "x", "yes", "no", "UPPER", "v_1", "t2", "on", "off"]
+ENUM_FAMILIES = [["on", "ON", "On", "oN"], ["kg", "Kg", "KG", "g"], ["a-b", "a_b", "a.b", "A-B"], ["-", ".", "--", "_", "-."],
+                 ["1", "1a", "-3", "2", "_1"], ["value", "Value", "VALUE"], ["x.y", "x-y", "x_y", "xy"], ["None", "none", "NONE"]]
 NMTOKENS = ["en", "x1", "a-b", "c.d", "1", "tok", "fr-CA", "_u", "v_2"]
 TEXTS = ["t", "hello world", "x<y", "a&b", "é", " lead", "trail ", "two  spaces", "1", "0", "true", "中文", "q\"uote'",
          "]]>", "line\nbreak", "tab\there", "-1.50", "None"]
@@ -155,15 +157,26 @@ def gen_attr(rng, name, have_id):
         ty = "NMTOKENS"
     a = {"name": name, "type": ty, "values": [], "dflt": "IMPLIED", "value": None}
     if ty == "ENUM":
-        pool = list(ENUM_TOKENS)
-        rng.shuffle(pool)
-        vals, seen = [], set()
-        for v in pool:
-            if _norm(v) not in seen:
-                seen.add(_norm(v))
-                vals.append(v)
-            if len(vals) >= rng.choice([1, 2, 3, 4]):
-                break
+        if rng.random() < 0.45:
+            # tokens that collide after xsdata's case / slug conversion (members get renamed: ON, ON_1 ...),
+            # tokens made of punctuation only or starting with a digit; the default may be any of them
+            fam = list(rng.choice(ENUM_FAMILIES))
+            rng.shuffle(fam)
+            vals = fam[:rng.choice([2, 3, 3, 4])]
+            extra = [v for v in ENUM_TOKENS if v not in vals]
+            if rng.random() < 0.5:
+                vals.append(rng.choice(extra))
+            rng.shuffle(vals)
+        else:
+            pool = list(ENUM_TOKENS)
+            rng.shuffle(pool)
+            vals, seen = [], set()
+            for v in pool:
+                if _norm(v) not in seen:
+                    seen.add(_norm(v))
+                    vals.append(v)
+                if len(vals) >= rng.choice([1, 2, 3, 4]):
+                    break
         a["values"] = vals
     if ty in ("ID",):
         a["dflt"] = rng.choice(["REQUIRED", "IMPLIED"])
